@@ -284,6 +284,8 @@ func enumMutants(root *jmut.Node, from, to int, fn func(name string, n *jmut.Nod
 		if orig.K == jmut.Str && len(p) > 0 {
 			var alts []string
 			switch key := p[len(p)-1].Key; {
+			case key == "$schema":
+				alts = c14alts().schemas
 			case key == "$regime" || key == "country":
 				alts = c14alts().regimes
 			case key == "currency":
@@ -379,7 +381,7 @@ func enumMutants(root *jmut.Node, from, to int, fn func(name string, n *jmut.Nod
 	return len(paths)
 }
 
-type c14altSet struct{ regimes, addons []string }
+type c14altSet struct{ regimes, addons, schemas []string }
 
 var c14altsOnce sync.Once
 var c14altsVal c14altSet
@@ -396,6 +398,16 @@ func c14alts() c14altSet {
 		}
 		sort.Strings(c14altsVal.regimes)
 		sort.Strings(c14altsVal.addons)
+		// every published schema id (the files under data/schemas)
+		root := filepath.Join(ev.Repo(), "data", "schemas")
+		_ = filepath.Walk(root, func(p string, info os.FileInfo, err error) error {
+			if err == nil && !info.IsDir() && strings.HasSuffix(p, ".json") {
+				rel, _ := filepath.Rel(root, p)
+				c14altsVal.schemas = append(c14altsVal.schemas, "https://gobl.org/draft-0/"+strings.TrimSuffix(filepath.ToSlash(rel), ".json"))
+			}
+			return nil
+		})
+		sort.Strings(c14altsVal.schemas)
 	})
 	return c14altsVal
 }
